@@ -58,11 +58,11 @@ def gen_one(r, i, tier):
             ops.append(("iadd", r.randrange(npool), r.randrange(npool)))
         elif c < 0.78 and npool < 7:
             ops.append(("mul", r.randrange(npool), r.choice([0.5, 2.0, 0.0, 1.0, 1.0]))); npool += 1
-        elif c < 0.86 and npool < 7:
+        elif c < 0.84 and npool < 7:
             ops.append(("copy", r.randrange(npool))); npool += 1
-        elif c < 0.92 and npool < 7:
+        elif c < 0.88 and npool < 7:
             ops.append(("zero", r.randrange(npool))); npool += 1
-        elif c < 0.94 and not vect:
+        elif c < 0.90 and not vect:
             # (after a vectorised fill a Categorize below another binning node holds an empty bin for
             # every category of the batch - the kernels pass all rows down with masked weights - so
             # whether hash() meets bool and str keys in one node is not what the row model says)
